@@ -271,6 +271,9 @@ def run(ctx):
             _forwarding(rep, sop, node, ('complement',))
     r133(ctx, rep)
     r134(ctx, rep)
+    from .plumbing import check_plumbing
+    rep.rule('R13.5', 'view -> iterator plumbing of the selections: self.X reaches the parameter named X')
+    ctx.floor('plumbing_sites', check_plumbing(ctx, rep, 'R13.5', ['petl.transform.selects']), 10)
 
 
 def _forwarding(rep, fn, call, names):
